@@ -37,6 +37,8 @@ func main() {
 		}
 		os.Exit(runCheck(runOpts{prop: prop, tier: *tier, repo: *repo, evidenceDir: *evd,
 			knownFile: *known, seed: seed, noEvidence: *noev}))
+	case "errsets":
+		dumpErrSets("/repo")
 	case "list":
 		var ks []string
 		for k := range props {
